@@ -269,7 +269,7 @@ pub fn expect(s: &RSchema, id: Id, c: &Call, o: &Opts) -> Expect {
 					}
 					out
 				}
-				Call::Struct(_, fs) | Call::StructVariant(_, fs) => fs.iter().map(|(k, v)| (k.clone(), v)).collect(),
+				Call::Struct(_, fs) | Call::StructVariant(_, fs) => fs.iter().filter(|f| f.1 != Call::SkipField).map(|(k, v)| (k.clone(), v)).collect(),
 				_ => return Expect::Unspecified,
 			};
 			let mut slots: Vec<Option<Val>> = vec![None; fields.len()];
